@@ -9,6 +9,7 @@
 
 import numpy as np
 
+import sys
 from bisect import bisect_left
 from hopcroftkarp import HopcroftKarp
 import warnings
@@ -101,6 +102,10 @@ def bottleneck(dgm1, dgm2, matching=False):
     ds = np.sort(np.unique(D.flatten()))  # [0:-1]  # Everything but np.inf
     bdist = ds[-1]
     matching = {}
+    # The matcher's depth-first search recurses once per vertex of an
+    # augmenting path, which can run through every vertex of the graph.
+    recursion_limit = sys.getrecursionlimit()
+    sys.setrecursionlimit(max(recursion_limit, 4 * D.shape[0] + 1000))
     while len(ds) >= 1:
         idx = 0
         if len(ds) > 1:
@@ -116,6 +121,7 @@ def bottleneck(dgm1, dgm2, matching=False):
             ds = ds[0:idx]
         else:
             ds = ds[idx + 1 : :]
+    sys.setrecursionlimit(recursion_limit)
 
     if return_matching:
         matchidx = []
